@@ -4,23 +4,35 @@ package main
 //   xmd <hash> <dst> <len> <msg> => bytes | panic           (repo expander vs Lean expand_message_xmd; spec)
 //   xof <shake> <k> <dst> <len> <msg> => bytes | panic
 //   h2f <modulus> <hash> <L> <dst> <msg> => scalar          (ScalarField.Hash vs Lean hash_to_field; mirror)
-//   h2c <curve> <dst> <msg> => point                        (driver: on curve and in the prime-order subgroup)
-// Go-side oracles: determinism, Hash = HashWithDst(default DST), DST dependence.
+//   h2fs <curve> <modulus> <msg> => scalar                  (ScalarField.Hash; suite string, L, expander regenerated from the source)
+//   h2fb <curve> <msg> => element                           (BaseField.Hash, one element under the curve's default DST)
+//   h2c <curve> <dst> <msg> => point                        (HashWithDst)
+//   h2cdef <curve> <msg> => point                           (Hash; the default DST comes from the regenerated suite string)
+//   h2cmap <curve> <u0> <u1> => point                       (Curve.Random with a scripted reader: chosen field elements, incl.
+//                                                            u = 0, Z·u² = -1, isogeny-kernel preimages, sgn0 edge cases)
+//   h2cvec <curve> <dst> <msg> <expected> => point          (published vectors)
+// The driver decides every point line against the straight-line RFC 9380 specification (on curve, in the prime-order
+// subgroup, equal to clear_cofactor(map(u0)+map(u1))) and ties the formulas regenerated from the Go source to it.
+// Go-side oracles: determinism, Hash = HashWithDst(default DST), DST and message dependence.
 
 import (
+	"bytes"
 	"crypto/sha256"
 	"crypto/sha3"
 	"crypto/sha512"
 	"fmt"
 	"hash"
+	"io"
+	"math/big"
 	"strings"
 
 	"golang.org/x/crypto/blake2b"
 
 	"github.com/bronlabs/bron-crypto/pkg/base"
 	"github.com/bronlabs/bron-crypto/pkg/base/algebra"
-	"github.com/bronlabs/bron-crypto/pkg/base/curves"
+	"github.com/bronlabs/bron-crypto/pkg/base/curves/curve25519"
 	"github.com/bronlabs/bron-crypto/pkg/base/curves/edwards25519"
+	edwards25519Impl "github.com/bronlabs/bron-crypto/pkg/base/curves/edwards25519/impl"
 	"github.com/bronlabs/bron-crypto/pkg/base/curves/impl/rfc9380"
 	"github.com/bronlabs/bron-crypto/pkg/base/curves/k256"
 	"github.com/bronlabs/bron-crypto/pkg/base/curves/p256"
@@ -39,6 +51,18 @@ func c19Dst(r *Rng) []byte {
 	default:
 		return c19RandBytes(r, 1+r.IntN(60))
 	}
+}
+
+func c19DstLenClass(n int) string {
+	switch {
+	case n == 0:
+		return "0"
+	case n < 254:
+		return "short"
+	case n <= 256:
+		return fmt.Sprint(n)
+	}
+	return "oversize"
 }
 
 func c19ExpLen(r *Rng, hashLen int) int {
@@ -70,9 +94,28 @@ func c19Expanders(c *Ctx) {
 		{"sha3_256", rfc9380.NewXMDMessageExpander(sha3.New256), 32},
 		{"blake2b512", rfc9380.NewXMDMessageExpander(func() hash.Hash { h, _ := blake2b.New512(nil); return h }), 64},
 	}
+	// deterministic boundary grid first: DST lengths around the 255-octet rule of RFC 9380 §5.3.3 × output lengths
+	type expCase struct {
+		dst, msg []byte
+		l        int
+	}
+	grid := func(hashLen int) []expCase {
+		var cs []expCase
+		for _, dl := range []int{0, 1, 254, 255, 256, 257, 400} {
+			for _, ol := range []int{1, hashLen, hashLen + 1, 3*hashLen - 1} {
+				cs = append(cs, expCase{c19RandBytes2(r, dl), c19RandBytes(r, r.IntN(80)), ol})
+			}
+		}
+		return cs
+	}
 	for _, x := range xmds {
+		cases := grid(x.size)
 		for i := 0; i < n; i++ {
-			dst, msg, l := c19Dst(r), c19RandBytes(r, r.IntN(200)), c19ExpLen(r, x.size)
+			cases = append(cases, expCase{c19Dst(r), c19RandBytes(r, r.IntN(200)), c19ExpLen(r, x.size)})
+		}
+		for _, cs := range cases {
+			dst, msg, l := cs.dst, cs.msg, cs.l
+			c.Count(fmt.Sprintf("xmd.dstlen.%s", c19DstLenClass(len(dst))))
 			res := safely(func() string { return hexBytes(x.e.ExpandMessage(dst, msg, uint(l))) })
 			if strings.HasPrefix(res, "panic:") {
 				res = "panic"
@@ -89,7 +132,11 @@ func c19Expanders(c *Ctx) {
 		name string
 		k    uint
 	}{{"shake128", 128}, {"shake256", 256}} {
+		cases := grid(32)
 		for i := 0; i < n; i++ {
+			cases = append(cases, expCase{c19Dst(r), c19RandBytes(r, r.IntN(200)), c19ExpLen(r, 32)})
+		}
+		for _, cs := range cases {
 			var h hash.XOF
 			if x.name == "shake128" {
 				h = sha3.NewSHAKE128()
@@ -97,7 +144,8 @@ func c19Expanders(c *Ctx) {
 				h = sha3.NewSHAKE256()
 			}
 			e := rfc9380.NewXOFMessageExpander(h, x.k)
-			dst, msg, l := c19Dst(r), c19RandBytes(r, r.IntN(200)), c19ExpLen(r, 32)
+			dst, msg, l := cs.dst, cs.msg, cs.l
+			c.Count(fmt.Sprintf("xof.dstlen.%s", c19DstLenClass(len(dst))))
 			res := safely(func() string { return hexBytes(e.ExpandMessage(dst, msg, uint(l))) })
 			if strings.HasPrefix(res, "panic:") {
 				res = "panic"
@@ -135,24 +183,243 @@ func c19ScalarHash[S algebra.PrimeFieldElement[S]](c *Ctx, r *Rng, f interface {
 	}
 }
 
-type c19Hasher[P any] interface {
+type c19Curve[P any] interface {
 	Hash([]byte) (P, error)
 	HashWithDst(string, []byte) (P, error)
+	Random(io.Reader) (P, error)
 }
 
-func c19CurveHash[P curves.Point[P, F, S], F algebra.FiniteFieldElement[F], S algebra.PrimeFieldElement[S]](c *Ctx, r *Rng, name string, cv c19Hasher[P], defaultDst string, n int) {
-	for i := 0; i < n; i++ {
-		msg := c19RandBytes(r, r.IntN(80))
-		dst := string(c19RandBytes2(r, 1+r.IntN(40)))
-		if r.IntN(4) == 0 {
-			dst = defaultDst
+// c19Reader is the io.Reader handed to Curve.Random: SetRandom of a prime field reads one wide little-endian
+// buffer per field element, so each Read call is answered with the little-endian bytes of the next chosen
+// value (zero padded), which makes the sampled field element exactly that value.
+type c19Reader struct {
+	vals     []*big.Int
+	n        int
+	misfit   bool
+	minChunk int
+}
+
+func (s *c19Reader) Read(p []byte) (int, error) {
+	for i := range p {
+		p[i] = 0
+	}
+	if s.minChunk == 0 || len(p) < s.minChunk {
+		s.minChunk = len(p)
+	}
+	if s.n >= len(s.vals) {
+		s.misfit = true
+		s.n++
+		return len(p), nil
+	}
+	b := s.vals[s.n].Bytes()
+	if len(b) > len(p) {
+		s.misfit = true
+	}
+	for i := 0; i < len(b) && i < len(p); i++ {
+		p[i] = b[len(b)-1-i]
+	}
+	s.n++
+	return len(p), nil
+}
+
+// what the stream needs of a point (edwards25519.Point is not a curves.Point: it has no designated generator)
+type c19Pt[P any, F any] interface {
+	Equal(P) bool
+	IsOpIdentity() bool
+	AffineX() (F, error)
+	AffineY() (F, error)
+}
+
+func c19PointStr[P c19Pt[P, F], F algebra.FiniteFieldElement[F]](p P) string {
+	if p.IsOpIdentity() {
+		return "inf"
+	}
+	x, errX := p.AffineX()
+	y, errY := p.AffineY()
+	if errX != nil || errY != nil {
+		return "inf"
+	}
+	return feHex(x) + ":" + feHex(y)
+}
+
+func c19ElemStr(u []*big.Int) string {
+	out := make([]string, len(u))
+	for i, c := range u {
+		out[i] = c.Text(16)
+	}
+	return strings.Join(out, "/")
+}
+
+// description of one curve's suite for the generator
+type c19Suite struct {
+	name  string
+	p     *big.Int
+	m     int
+	block int          // input block size of the expander's hash (message-length boundary cases)
+	z     []*big.Int   // Z of the SSWU map (nil for Elligator 2)
+	extra [][]*big.Int // further exceptional field elements (found offline)
+}
+
+func c19Hex(s string) *big.Int {
+	v, ok := new(big.Int).SetString(s, 16)
+	if !ok {
+		panic("bad hex " + s)
+	}
+	return v
+}
+
+func c19Neg(p *big.Int, k int64) *big.Int { return new(big.Int).Sub(p, big.NewInt(k)) }
+
+// square root in Fp2 = Fp[i]/(i²+1), p ≡ 3 (mod 4); nil if a is not a square
+func c19Fp2Sqrt(p *big.Int, a []*big.Int) []*big.Int {
+	mod := func(x *big.Int) *big.Int { return new(big.Int).Mod(x, p) }
+	if a[1].Sign() == 0 {
+		if r := new(big.Int).ModSqrt(a[0], p); r != nil {
+			return []*big.Int{r, big.NewInt(0)}
 		}
-		res := safely(func() string {
+		if r := new(big.Int).ModSqrt(mod(new(big.Int).Neg(a[0])), p); r != nil {
+			return []*big.Int{big.NewInt(0), r}
+		}
+		return nil
+	}
+	norm := mod(new(big.Int).Add(new(big.Int).Mul(a[0], a[0]), new(big.Int).Mul(a[1], a[1])))
+	n := new(big.Int).ModSqrt(norm, p)
+	if n == nil {
+		return nil
+	}
+	half := new(big.Int).ModInverse(big.NewInt(2), p)
+	for _, sgn := range []int64{1, -1} {
+		d := mod(new(big.Int).Mul(new(big.Int).Add(a[0], new(big.Int).Mul(big.NewInt(sgn), n)), half))
+		x0 := new(big.Int).ModSqrt(d, p)
+		if x0 == nil || x0.Sign() == 0 {
+			continue
+		}
+		x1 := mod(new(big.Int).Mul(a[1], new(big.Int).ModInverse(mod(new(big.Int).Add(x0, x0)), p)))
+		return []*big.Int{x0, x1}
+	}
+	return nil
+}
+
+// the field elements on which the map takes its exceptional branches
+func (s *c19Suite) exceptional() [][]*big.Int {
+	zero, one := big.NewInt(0), big.NewInt(1)
+	pm1 := c19Neg(s.p, 1)
+	var us [][]*big.Int
+	if s.m == 1 {
+		us = [][]*big.Int{{zero}, {one}, {pm1}, {big.NewInt(2)}, {c19Neg(s.p, 2)}}
+		if s.z != nil {
+			// Z·u² = -1  (tv1 = -1: the denominator of x1 vanishes)
+			zi := new(big.Int).ModInverse(s.z[0], s.p)
+			t := new(big.Int).Mod(new(big.Int).Neg(zi), s.p)
+			if r := new(big.Int).ModSqrt(t, s.p); r != nil {
+				us = append(us, []*big.Int{r}, []*big.Int{new(big.Int).Sub(s.p, r)})
+			}
+		}
+	} else {
+		// sgn0 of Fp2 looks at c1 only when c0 = 0
+		us = [][]*big.Int{{zero, zero}, {one, zero}, {zero, one}, {zero, big.NewInt(2)}, {zero, pm1}, {zero, c19Neg(s.p, 2)}, {pm1, zero}, {big.NewInt(2), one}, {one, pm1}}
+		if s.z != nil {
+			// u² = -1/Z
+			z0, z1 := s.z[0], s.z[1]
+			nrm := new(big.Int).Mod(new(big.Int).Add(new(big.Int).Mul(z0, z0), new(big.Int).Mul(z1, z1)), s.p)
+			ni := new(big.Int).ModInverse(nrm, s.p)
+			// 1/Z = (z0 - z1 i)/nrm ; -1/Z = (-z0 + z1 i)/nrm
+			a0 := new(big.Int).Mod(new(big.Int).Mul(new(big.Int).Neg(z0), ni), s.p)
+			a1 := new(big.Int).Mod(new(big.Int).Mul(z1, ni), s.p)
+			if r := c19Fp2Sqrt(s.p, []*big.Int{a0, a1}); r != nil {
+				us = append(us, r, []*big.Int{new(big.Int).Mod(new(big.Int).Neg(r[0]), s.p), new(big.Int).Mod(new(big.Int).Neg(r[1]), s.p)})
+			}
+		}
+	}
+	return append(us, s.extra...)
+}
+
+func (s *c19Suite) randElem(r *Rng) []*big.Int {
+	u := make([]*big.Int, s.m)
+	for i := range u {
+		switch r.IntN(10) {
+		case 0:
+			u[i] = big.NewInt(int64(r.IntN(5)))
+		case 1:
+			u[i] = new(big.Int).Sub(s.p, big.NewInt(int64(1+r.IntN(4))))
+		default:
+			u[i] = r.BigBelow(s.p)
+		}
+	}
+	return u
+}
+
+func c19MsgLen(r *Rng, block int) int {
+	switch r.IntN(10) {
+	case 0:
+		return 0
+	case 1:
+		return 1
+	case 2:
+		return []int{block - 1, block, block + 1, 2 * block, 2*block - 17}[r.IntN(5)]
+	case 3:
+		return 1000 + r.IntN(4000)
+	default:
+		return r.IntN(120)
+	}
+}
+
+func c19CurveDst(r *Rng, defaultDst string) string {
+	switch r.IntN(10) {
+	case 0:
+		return defaultDst
+	case 1:
+		return ""
+	case 2:
+		return string(c19RandBytes2(r, 255))
+	case 3:
+		return string(c19RandBytes2(r, 256))
+	case 4:
+		return string(c19RandBytes2(r, 257+r.IntN(300)))
+	case 5:
+		return string(c19RandBytes2(r, 1))
+	default:
+		return string(c19RandBytes2(r, 1+r.IntN(60)))
+	}
+}
+
+func c19DstClass(dst, defaultDst string) string {
+	switch {
+	case dst == defaultDst:
+		return "default"
+	case len(dst) == 0:
+		return "empty"
+	case len(dst) == 255:
+		return "255"
+	case len(dst) > 255:
+		return "oversize"
+	}
+	return "short"
+}
+
+func c19LenClass(n, block int) string {
+	switch {
+	case n == 0:
+		return "0"
+	case n == 1:
+		return "1"
+	case n >= 1000:
+		return "long"
+	case n >= block-1 && n <= block+1 || n == 2*block:
+		return "block-boundary"
+	}
+	return "other"
+}
+
+func c19CurveHash[P c19Pt[P, F], F algebra.FiniteFieldElement[F]](c *Ctx, r *Rng, s *c19Suite, cv c19Curve[P], defaultDst string, n, nmap int) {
+	name := s.name
+	hashOnce := func(dst string, msg []byte, viaDefault bool) string {
+		return safely(func() string {
 			p, err := cv.HashWithDst(dst, msg)
 			if err != nil {
 				return "err"
 			}
-			p2, err := cv.HashWithDst(dst, msg)
+			p2, err := cv.HashWithDst(dst, bytes.Clone(msg))
 			if err != nil || !p.Equal(p2) {
 				c.Violation(fmt.Sprintf("%s HashWithDst is not deterministic dst=%s msg=%s", name, hexBytes([]byte(dst)), hexBytes(msg)))
 			}
@@ -167,41 +434,289 @@ func c19CurveHash[P curves.Point[P, F, S], F algebra.FiniteFieldElement[F], S al
 			if err != nil || p.Equal(p4) {
 				c.Violation(fmt.Sprintf("%s HashWithDst does not depend on the message dst=%s msg=%s", name, hexBytes([]byte(dst)), hexBytes(msg)))
 			}
-			if dst == defaultDst {
+			if viaDefault {
 				p5, err := cv.Hash(msg)
 				if err != nil || !p.Equal(p5) {
 					c.Violation(fmt.Sprintf("%s Hash != HashWithDst(default DST) msg=%s", name, hexBytes(msg)))
 				}
-				c.Count("h2c.default-dst")
 			}
-			return pointStr(p)
+			return c19PointStr(p)
 		})
+	}
+	// every DST class × every message-length class at least once, then random
+	type job struct {
+		dst string
+		ml  int
+	}
+	var jobs []job
+	dsts := []string{defaultDst, "", string(c19RandBytes2(r, 255)), string(c19RandBytes2(r, 256)), string(c19RandBytes2(r, 300+r.IntN(200))), string(c19RandBytes2(r, 1+r.IntN(40)))}
+	lens := []int{0, 1, s.block - 1, s.block, s.block + 1, 1000 + r.IntN(3000)}
+	for i := range dsts {
+		jobs = append(jobs, job{dsts[i], lens[i%len(lens)]})
+		jobs = append(jobs, job{dsts[i], lens[(i+3)%len(lens)]})
+	}
+	for len(jobs) < n {
+		jobs = append(jobs, job{c19CurveDst(r, defaultDst), c19MsgLen(r, s.block)})
+	}
+	if !c.Thorough() && len(jobs) > n && n > 0 {
+		jobs = jobs[:max(n, 12)]
+	}
+	for _, j := range jobs {
+		msg := c19RandBytes(r, j.ml)
+		res := hashOnce(j.dst, msg, j.dst == defaultDst)
 		if res == "inf" {
 			c19Trivial(c)
 		}
 		c.Count("h2c." + name)
-		c.Emit(fmt.Sprintf("h2c %s %s %s", name, hexBytes([]byte(dst)), hexBytes(msg)), res)
+		c.Count("h2c.dst." + c19DstClass(j.dst, defaultDst))
+		c.Count("h2c.msglen." + c19LenClass(len(msg), s.block))
+		c.Emit(fmt.Sprintf("h2c %s %s %s", name, hexBytes([]byte(j.dst)), hexBytes(msg)), res)
+	}
+	// Hash (default DST supplied by the model from the regenerated suite string)
+	for i := 0; i < 3; i++ {
+		msg := c19RandBytes(r, c19MsgLen(r, s.block))
+		res := safely(func() string {
+			p, err := cv.Hash(msg)
+			if err != nil {
+				return "err"
+			}
+			return c19PointStr(p)
+		})
+		c.Count("h2c.hash-default." + name)
+		c.Emit(fmt.Sprintf("h2cdef %s %s", name, hexBytes(msg)), res)
+	}
+	// chosen field elements through Curve.Random
+	exc := s.exceptional()
+	var pairs [][2][]*big.Int
+	for i, u := range exc {
+		other := s.randElem(r)
+		if i%2 == 0 {
+			pairs = append(pairs, [2][]*big.Int{u, other})
+		} else {
+			pairs = append(pairs, [2][]*big.Int{other, u})
+		}
+	}
+	if len(exc) >= 2 {
+		pairs = append(pairs, [2][]*big.Int{exc[0], exc[0]}, [2][]*big.Int{exc[0], exc[1]}, [2][]*big.Int{exc[len(exc)-1], exc[len(exc)-1]})
+	}
+	for i := 0; i < nmap; i++ {
+		pairs = append(pairs, [2][]*big.Int{s.randElem(r), s.randElem(r)})
+	}
+	for i, pr := range pairs {
+		sc := &c19Reader{vals: append(append([]*big.Int{}, pr[0]...), pr[1]...)}
+		res := safely(func() string {
+			p, err := cv.Random(sc)
+			if err != nil {
+				return "err:random"
+			}
+			return c19PointStr(p)
+		})
+		if sc.misfit || sc.n != len(sc.vals) || sc.minChunk*8 < s.p.BitLen() {
+			// the reader protocol of SetRandom changed: the line cannot be interpreted
+			res = "err:script-misaligned"
+		}
+		if i < len(exc)+3 {
+			c.Count("h2c.map.exceptional")
+		} else {
+			c.Count("h2c.map.random")
+		}
+		c.Count("h2cmap." + name)
+		c.Emit(fmt.Sprintf("h2cmap %s %s %s", name, c19ElemStr(pr[0]), c19ElemStr(pr[1])), res)
+	}
+	// published vectors
+	for _, v := range c19Vectors {
+		if v.curve != name {
+			continue
+		}
+		res := safely(func() string {
+			p, err := cv.HashWithDst(v.dst, []byte(v.msg))
+			if err != nil {
+				return "err"
+			}
+			return c19PointStr(p)
+		})
+		c.Count("h2c.vector." + name)
+		c.Emit(fmt.Sprintf("h2cvec %s %s %s %s", name, hexBytes([]byte(v.dst)), hexBytes([]byte(v.msg)), v.point), res)
+	}
+}
+
+func c19FieldHash[E algebra.FiniteFieldElement[E]](c *Ctx, r *Rng, name string, block int, f interface{ Hash([]byte) (E, error) }, n int) {
+	for i := 0; i < n; i++ {
+		msg := c19RandBytes(r, c19MsgLen(r, block))
+		res := safely(func() string {
+			e, err := f.Hash(msg)
+			if err != nil {
+				return "err"
+			}
+			e2, _ := f.Hash(bytes.Clone(msg))
+			if !e.Equal(e2) {
+				c.Violation(name + " BaseField.Hash is not deterministic")
+			}
+			return feHex(e)
+		})
+		c.Count("h2fb." + name)
+		c.Emit(fmt.Sprintf("h2fb %s %s", name, hexBytes(msg)), res)
+	}
+}
+
+func c19ScalarHashDefault[S algebra.PrimeFieldElement[S]](c *Ctx, r *Rng, name string, block int, f interface {
+	algebra.PrimeField[S]
+	Hash([]byte) (S, error)
+}, n int) {
+	p := hexNat(fieldOrder(f))
+	for i := 0; i < n; i++ {
+		msg := c19RandBytes(r, c19MsgLen(r, block))
+		res := safely(func() string {
+			s, err := f.Hash(msg)
+			if err != nil {
+				return "err"
+			}
+			return scalarHex(s)
+		})
+		c.Count("h2fs." + name)
+		c.Emit(fmt.Sprintf("h2fs %s %s %s", name, p, hexBytes(msg)), res)
 	}
 }
 
 func c19H2C(c *Ctx) {
 	c19Expanders(c)
 	r := NewRng(c.Seed, 1903)
-	n := 12
+	n, nmap := 12, 4
 	if c.Thorough() {
-		n = 150
+		n, nmap = 150, 60
 	}
 	tag := base.Hash2CurveAppTag
 	c19ScalarHash(c, r, k256.NewScalarField(), "sha256", 48, tag+k256.Hash2CurveScalarSuite, 4*n)
 	c19ScalarHash(c, r, p256.NewScalarField(), "sha256", 48, tag+p256.Hash2CurveScalarSuite, 4*n)
 	c19ScalarHash(c, r, edwards25519.NewScalarField(), "sha512", 48, tag+edwards25519.Hash2CurveScalarSuite, 4*n)
 	c19ScalarHash(c, r, bls12381.NewScalarField(), "sha256", 64, tag+bls12381.Hash2CurveScalarSuite, 4*n)
+	c19ScalarHash(c, r, curve25519.NewScalarField(), "sha512", 48, tag+edwards25519.Hash2CurveScalarSuite, n)
+	// the pasta "scalar" hashes are the base-field hashes of the sister curve (same suite and DST)
+	c19ScalarHash(c, r, pasta.NewPallasScalarField(), "blake2b512", 64, tag+pasta.VestaHash2CurveSuite, 2*n)
+	c19ScalarHash(c, r, pasta.NewVestaScalarField(), "blake2b512", 64, tag+pasta.PallasHash2CurveSuite, 2*n)
 
-	c19CurveHash(c, r, "k256", cK256, tag+k256.Hash2CurveSuite, n)
-	c19CurveHash(c, r, "p256", cP256, tag+p256.Hash2CurveSuite, n)
-	c19CurveHash(c, r, "pallas", cPallas, tag+pasta.PallasHash2CurveSuite, n)
-	c19CurveHash(c, r, "vesta", cVesta, tag+pasta.VestaHash2CurveSuite, n)
-	c19CurveHash(c, r, "bls12381g1", cBLSG1, tag+bls12381.Hash2CurveSuiteG1, n)
-	c19CurveHash(c, r, "bls12381g2", cBLSG2, tag+bls12381.Hash2CurveSuiteG2, n/2+1)
-	c19CurveHash(c, r, "ed25519", cEd25519, tag+edwards25519.Hash2CurveSuite, n)
+	c19ScalarHashDefault(c, r, "k256", 64, k256.NewScalarField(), n)
+	c19ScalarHashDefault(c, r, "p256", 64, p256.NewScalarField(), n)
+	c19ScalarHashDefault(c, r, "ed25519", 128, edwards25519.NewScalarField(), n)
+	c19ScalarHashDefault(c, r, "bls12381", 64, bls12381.NewScalarField(), n)
+
+	c19FieldHash(c, r, "k256", 64, k256.NewBaseField(), n)
+	c19FieldHash(c, r, "p256", 64, p256.NewBaseField(), n)
+	c19FieldHash(c, r, "pallas", 128, pasta.NewPallasBaseField(), n)
+	c19FieldHash(c, r, "vesta", 128, pasta.NewVestaBaseField(), n)
+	c19FieldHash(c, r, "bls12381g1", 64, bls12381.NewG1BaseField(), n)
+	c19FieldHash(c, r, "bls12381g2", 64, bls12381.NewG2BaseField(), n)
+	c19FieldHash(c, r, "ed25519", 128, edwards25519.NewBaseField(), n)
+
+	pk := fieldOrder(k256.NewBaseField())
+	pp := fieldOrder(p256.NewBaseField())
+	ppal := fieldOrder(pasta.NewPallasBaseField())
+	pves := fieldOrder(pasta.NewVestaBaseField())
+	pbls := fieldOrder(bls12381.NewG1BaseField())
+	ped := fieldOrder(edwards25519.NewBaseField())
+	// BLS12-381 G1: field elements that the SSWU map sends onto the kernel of the 11-isogeny (x_den(x') = 0), found
+	// offline by factoring x_den over Fp and solving x1(u) = root resp. x2(u) = root; RFC 9380 §6.6.3 maps them to
+	// the identity
+	g1Kernel := [][]*big.Int{
+		{c19Hex("146850b3bdc2495ed73bb803dfaa951a88abff0acb5c7aeac52b48f3c808e87ce3885b98ce916e17caef21a6cbc6b598")},
+		{c19Hex("ec1d2551f80abe70136a7f42e52133ebddf9b619a88147ae422a98e57581f2b0961dc019c74599f12a1b5513649a2e8")},
+		{c19Hex("a92437e90bc473049ab549b4c4a145feb4fb5cd39f7ee85c11fa62a8f5317220b398be420ca5d8364d460f6ee1efd29")},
+		{c19Hex("1377c0192d99508a317127abf17c64205c7aad448380027efb47ae73ea231dbd6ecd3f2841b63d309c35bb8fd13e48f0")},
+		{c19Hex("854a3cb180882d5b1efc1c3cc5b3fb33b27cb739f1389986ca46e1c5cb5010d8a06fd781c63074868f316d95b8f8405")},
+	}
+	suites := map[string]*c19Suite{
+		"k256":       {name: "k256", p: pk, m: 1, block: 64, z: []*big.Int{c19Neg(pk, 11)}},
+		"p256":       {name: "p256", p: pp, m: 1, block: 64, z: []*big.Int{c19Neg(pp, 10)}},
+		"pallas":     {name: "pallas", p: ppal, m: 1, block: 128, z: []*big.Int{c19Neg(ppal, 13)}},
+		"vesta":      {name: "vesta", p: pves, m: 1, block: 128, z: []*big.Int{c19Neg(pves, 13)}},
+		"bls12381g1": {name: "bls12381g1", p: pbls, m: 1, block: 64, z: []*big.Int{big.NewInt(11)}, extra: g1Kernel},
+		"bls12381g2": {name: "bls12381g2", p: pbls, m: 2, block: 64, z: []*big.Int{c19Neg(pbls, 2), c19Neg(pbls, 1)}},
+		"ed25519":    {name: "ed25519", p: ped, m: 1, block: 128},
+	}
+	c19CurveHash(c, r, suites["k256"], cK256, tag+k256.Hash2CurveSuite, n, nmap)
+	c19CurveHash(c, r, suites["p256"], cP256, tag+p256.Hash2CurveSuite, n, nmap)
+	c19CurveHash(c, r, suites["pallas"], cPallas, tag+pasta.PallasHash2CurveSuite, n, nmap)
+	c19CurveHash(c, r, suites["vesta"], cVesta, tag+pasta.VestaHash2CurveSuite, n, nmap)
+	c19CurveHash(c, r, suites["bls12381g1"], cBLSG1, tag+bls12381.Hash2CurveSuiteG1, n, nmap)
+	c19CurveHash(c, r, suites["bls12381g2"], cBLSG2, tag+bls12381.Hash2CurveSuiteG2, n, nmap)
+	c19CurveHash(c, r, suites["ed25519"], edwards25519.NewCurve(), tag+edwards25519.Hash2CurveSuite, n, nmap)
+	c19PrimeSubgroupHash(c, r, n)
+	// the hypotheses of the Lean map theorems (non-square Z, square g(B/(Z·A)), …) evaluated by the model for each suite
+	for _, name := range []string{"k256", "p256", "pallas", "vesta", "bls12381g1", "bls12381g2", "ed25519"} {
+		c.Count("h2c.theorem-hypotheses")
+		c.Emit("h2chyp "+name, "ok")
+	}
+}
+
+// the prime-order-subgroup wrappers of edwards25519 / curve25519 and curve25519 itself: the same map under the
+// hood; HashWithDst must succeed (AsPrimeSubGroupPoint rejects a point with a torsion component) and agree
+// with the full-curve hash
+func c19PrimeSubgroupHash(c *Ctx, r *Rng, n int) {
+	tag := base.Hash2CurveAppTag
+	ed, edSub := edwards25519.NewCurve(), edwards25519.NewPrimeSubGroup()
+	mont, montSub := curve25519.NewCurve(), curve25519.NewPrimeSubGroup()
+	for i := 0; i < n; i++ {
+		msg := c19RandBytes(r, c19MsgLen(r, 128))
+		dst := c19CurveDst(r, tag+edwards25519.Hash2CurveSuite)
+		res := safely(func() string {
+			p, err := ed.HashWithDst(dst, msg)
+			if err != nil {
+				return "err"
+			}
+			q, err := edSub.HashWithDst(dst, msg)
+			if err != nil {
+				c.Violation(fmt.Sprintf("edwards25519 PrimeSubGroup.HashWithDst fails (output outside the prime-order subgroup) dst=%s msg=%s", hexBytes([]byte(dst)), hexBytes(msg)))
+				return "err:subgroup"
+			}
+			if !q.AsPoint().Equal(p) {
+				c.Violation(fmt.Sprintf("edwards25519 PrimeSubGroup.HashWithDst != Curve.HashWithDst dst=%s msg=%s", hexBytes([]byte(dst)), hexBytes(msg)))
+			}
+			if !p.IsTorsionFree() {
+				c.Violation(fmt.Sprintf("edwards25519 HashWithDst output has a torsion component dst=%s msg=%s", hexBytes([]byte(dst)), hexBytes(msg)))
+			}
+			// curve25519 hashes with the same map: its point is the birational image of the Edwards point
+			m, err := mont.HashWithDst(dst, msg)
+			if err != nil {
+				return "err"
+			}
+			ms, err := montSub.HashWithDst(dst, msg)
+			if err != nil || !ms.AsPoint().Equal(m) {
+				c.Violation(fmt.Sprintf("curve25519 PrimeSubGroup.HashWithDst fails or differs dst=%s msg=%s", hexBytes([]byte(dst)), hexBytes(msg)))
+			}
+			if !bytes.Equal(m.V.Bytes(), p.V.Bytes()) {
+				var ex, ey, mx, my edwards25519Impl.Fp
+				p.V.ToAffine(&ex, &ey)
+				m.V.ToAffine(&mx, &my)
+				if ex.Equal(&mx)&ey.Equal(&my) != 1 {
+					c.Violation(fmt.Sprintf("curve25519 HashWithDst is not the edwards25519 map dst=%s msg=%s", hexBytes([]byte(dst)), hexBytes(msg)))
+				}
+			}
+			return c19PointStr(p)
+		})
+		c.Count("h2c.ed25519-subgroup")
+		c.Emit(fmt.Sprintf("h2c ed25519 %s %s", hexBytes([]byte(dst)), hexBytes(msg)), res)
+	}
+	// curve25519's default DST differs from edwards25519's: Hash(msg) of curve25519 = edwards map under that DST
+	for i := 0; i < 3; i++ {
+		msg := c19RandBytes(r, c19MsgLen(r, 128))
+		res := safely(func() string {
+			m, err := mont.Hash(msg)
+			if err != nil {
+				return "err"
+			}
+			p, err := ed.HashWithDst(tag+curve25519.Hash2CurveSuite, msg)
+			if err != nil {
+				return "err"
+			}
+			var ex, ey, mx, my edwards25519Impl.Fp
+			p.V.ToAffine(&ex, &ey)
+			m.V.ToAffine(&mx, &my)
+			if ex.Equal(&mx)&ey.Equal(&my) != 1 {
+				c.Violation(fmt.Sprintf("curve25519 Hash != edwards25519 map under the curve25519 default DST msg=%s", hexBytes(msg)))
+			}
+			return c19PointStr(p)
+		})
+		c.Count("h2c.curve25519-default")
+		c.Emit(fmt.Sprintf("h2cdef curve25519 %s", hexBytes(msg)), res)
+	}
 }
